@@ -3,6 +3,7 @@ package sim
 import (
 	"encoding/json"
 	"fmt"
+	"strings"
 	"time"
 
 	"pgregory.net/rapid"
@@ -150,6 +151,44 @@ func genSysSpec(t *rapid.T, prof IngressProfile) *SysSpec {
 	for i := 0; i < n && i < len(perm); i++ {
 		s.Routes = append(s.Routes, genRoute(t, prof, perm[i], i))
 	}
+	if prof.Match && rapid.IntRange(0, 3).Draw(t, "named?") == 0 {
+		// named matchers, attached singly and in pairs, with and without a match
+		// block of the route's own; lists of three entries included
+		pool := []NamedMatcherSpec{
+			{Name: "h3", Match: MatchSpec{Hosts: []string{"hooks.example.com", "*.hooks.example.com", "api.example.com"}}},
+			{Name: "h1", Match: MatchSpec{Hosts: []string{"other.test"}}},
+			{Name: "h1b", Match: MatchSpec{Hosts: []string{"extra.test"}}},
+			{Name: "m3", Match: MatchSpec{Methods: []string{"POST", "PUT", "PATCH"}}},
+			{Name: "mdel", Match: MatchSpec{Methods: []string{"DELETE"}}},
+			{Name: "mget", Match: MatchSpec{Methods: []string{"GET"}}},
+			{Name: "ip3", Match: MatchSpec{RemoteIPs: []string{"198.51.100.0/24", "2001:db8::/32", "192.0.2.0/24"}}},
+			{Name: "ip1", Match: MatchSpec{RemoteIPs: []string{"203.0.113.0/24"}}},
+			{Name: "ip1b", Match: MatchSpec{RemoteIPs: []string{"10.9.0.0/16"}}},
+			{Name: "hdr", Match: MatchSpec{Headers: []KV{{"X-Kind", "push"}}}},
+			{Name: "qex", Match: MatchSpec{QueryExists: []string{"tok"}}},
+		}
+		s.Matchers = pool
+		families := [][]string{{"h3", "h1", "h1b"}, {"m3", "mdel", "mget"}, {"ip3", "ip1", "ip1b"}}
+		fam := rapid.SampledFrom(families).Draw(t, "named.family")
+		for i := range s.Routes {
+			r := &s.Routes[i]
+			if r.Channel == "outbound" || r.Channel == "internal" {
+				continue
+			}
+			switch rapid.IntRange(0, 5).Draw(t, "named.use") {
+			case 0:
+			case 1:
+				r.MatchRefs = []string{rapid.SampledFrom(pool).Draw(t, "named.one").Name}
+			case 2:
+				r.MatchRefs = []string{fam[0], fam[1+rapid.IntRange(0, 1).Draw(t, "named.second")], rapid.SampledFrom([]string{"hdr", "qex"}).Draw(t, "named.third")}
+			default:
+				r.MatchRefs = []string{fam[0], fam[1+rapid.IntRange(0, 1).Draw(t, "named.second")]}
+			}
+			if len(r.MatchRefs) > 0 && rapid.IntRange(0, 2).Draw(t, "named.noinline") != 0 {
+				r.Match = nil
+			}
+		}
+	}
 	if prof.Rotation {
 		until := int64(3600)
 		s.Secrets = []SecretSpec{
@@ -192,11 +231,26 @@ func genReq(t *rapid.T, spec *SysSpec, prof IngressProfile) *ReqSpec {
 	r := &spec.Routes[ri]
 	rs := &ReqSpec{Route: ri, Method: "POST", Host: "hooks.example.com"}
 	rs.Path = rapid.SampledFrom(reqPathsFor(r.Path)).Draw(t, "path")
-	m := r.Match
+	m := spec.matchOf(r)
 	// satisfy the match block, then maybe break one criterion
 	if m != nil {
 		if len(m.Methods) > 0 {
-			rs.Method = m.Methods[0]
+			rs.Method = m.Methods[rapid.IntRange(0, len(m.Methods)-1).Draw(t, "method.entry")]
+		}
+		if len(m.Hosts) > 0 && rapid.IntRange(0, 2).Draw(t, "host.entry?") != 0 {
+			// any entry of the list, wildcards made concrete
+			h := m.Hosts[rapid.IntRange(0, len(m.Hosts)-1).Draw(t, "host.entry")]
+			switch {
+			case h == "*":
+				h = "hooks.example.com"
+			case strings.HasPrefix(h, "*."):
+				h = "sub" + h[1:]
+			}
+			rs.Host = h
+		}
+		if len(m.RemoteIPs) > 0 && rapid.IntRange(0, 2).Draw(t, "remote.entry?") != 0 {
+			rs.Remote = map[string]string{"198.51.100.0/24": "198.51.100.7:4000", "2001:db8::/32": "[2001:db8::9]:4000", "192.0.2.0/24": "192.0.2.44:4000",
+				"203.0.113.0/24": "203.0.113.9:4000", "10.9.0.0/16": "10.9.3.3:4000"}[m.RemoteIPs[rapid.IntRange(0, len(m.RemoteIPs)-1).Draw(t, "remote.entry")]]
 		}
 		for _, kv := range m.Headers {
 			rs.Headers = append(rs.Headers, kv)
@@ -213,15 +267,15 @@ func genReq(t *rapid.T, spec *SysSpec, prof IngressProfile) *ReqSpec {
 	}
 	switch rapid.IntRange(0, 11).Draw(t, "break") {
 	case 0:
-		rs.Method = rapid.SampledFrom([]string{"GET", "PUT", "DELETE", "post"}).Draw(t, "method")
+		rs.Method = rapid.SampledFrom([]string{"GET", "PUT", "DELETE", "PATCH", "post"}).Draw(t, "method")
 	case 1:
-		rs.Host = rapid.SampledFrom(append([]string{"HOOKS.example.com:8443", "hooks.example.com.", "example.com", "evil.hooks.example.com.attacker.test", ""}, sysHosts...)).Draw(t, "host")
+		rs.Host = rapid.SampledFrom(append([]string{"HOOKS.example.com:8443", "hooks.example.com.", "example.com", "evil.hooks.example.com.attacker.test", "", "extra.test"}, sysHosts...)).Draw(t, "host")
 	case 2:
 		rs.Headers = nil
 	case 3:
 		rs.Query = ""
 	case 4:
-		rs.Remote = rapid.SampledFrom([]string{"203.0.113.9:1234", "[2001:db8::1]:443", "[::ffff:198.51.100.9]:80", "198.51.100.200:9"}).Draw(t, "remote")
+		rs.Remote = rapid.SampledFrom([]string{"203.0.113.9:1234", "[2001:db8::1]:443", "[::ffff:198.51.100.9]:80", "198.51.100.200:9", "192.0.2.1:9", "10.9.1.1:9"}).Draw(t, "remote")
 	case 5:
 		rs.Headers = append(rs.Headers, KV{"X-Kind", "other"})
 	}
@@ -242,6 +296,9 @@ func genReq(t *rapid.T, spec *SysSpec, prof IngressProfile) *ReqSpec {
 		rs.Body = []byte{0x00, 0xff, 0xfe, '\r', '\n', 0x80}
 	default:
 		rs.Body = []byte(fmt.Sprintf("b%d", rapid.IntRange(0, 99).Draw(t, "bodytok")))
+	}
+	if rapid.IntRange(0, 3).Draw(t, "chunked") == 0 {
+		rs.Chunked = true
 	}
 	if rapid.IntRange(0, 5).Draw(t, "extrahdr") == 0 {
 		rs.Headers = append(rs.Headers, KV{"X-Pad", string(make([]byte, 0)) + "ppppppppppppppppppppppppppppppppppppppppppppppppppppppppppppppppppppppppppppppppppppppppppppppp"})
